@@ -8,6 +8,7 @@ import EtkVerif.Driver.AsmCmd
 import EtkVerif.Driver.FsCmd
 import EtkVerif.Driver.LstCmd
 import EtkVerif.Driver.LayCmd
+import EtkVerif.Driver.ProgCmd
 open EtkVerif.Driver
 
 def dispatch (line : String) : String :=
@@ -26,6 +27,7 @@ def dispatch (line : String) : String :=
     else if cmd == "asmfs" then cmdAsmFs args
     else if cmd == "lst" then cmdLst args
     else if cmd == "lay" then cmdLay args
+    else if cmd == "proggen" then cmdProgGen args
     else s!"bad-op {cmd}"
   | [] => "bad-op"
 
